@@ -11,6 +11,15 @@ CA_EXT = ["basicConstraints=critical,CA:TRUE", "keyUsage=critical,keyCertSign,cR
 
 CUSTOM_EKU = "1.3.6.1.4.1.99999.7"
 
+# boundary material (registered here so that vlib/x509gen.py, whose hash keys the material cache, stays unchanged)
+for _bits in (2040, 2041, 2047, 2056):
+    X.KEYKINDS[f"rsa{_bits}"] = ["-algorithm", "RSA", "-pkeyopt", f"rsa_keygen_bits:{_bits}"]
+    X.SIGN_ALG[f"rsa{_bits}"] = "ps256"
+for _kind, _curve in (("secp224r1", "secp224r1"), ("brainpoolP256r1", "brainpoolP256r1"), ("brainpoolP384r1", "brainpoolP384r1"),
+                      ("prime192v1", "prime192v1")):
+    X.KEYKINDS[_kind] = ["-algorithm", "EC", "-pkeyopt", f"ec_paramgen_curve:{_curve}"]
+    X.SIGN_ALG[_kind] = "es256"
+
 
 def ee_ext(**over):
     """the conforming end-entity extension set with single lines replaced / removed (value None) / added"""
